@@ -304,8 +304,11 @@ func (c *Controller) scaleNodeGroup(nodegroup string, nodeGroup *NodeGroupState)
 	metrics.NodeGroupCPUCapacityLargestAvailableMem.WithLabelValues(nodegroup).Set(float64(nodeCapacity.LargestAvailableMemory.GetCPUQuantity().MilliValue()))
 	metrics.NodeGroupMemCapacityLargestAvailableMem.WithLabelValues(nodegroup).Set(float64(nodeCapacity.LargestAvailableMemory.GetMemoryQuantity().MilliValue() / 1000))
 
+	// The scale lock is checked before any scaling activity, including the below-minimum recovery
+	locked := nodeGroup.scaleUpLock.locked()
+
 	// If we ever get into a state where we have less nodes than the minimum
-	if len(untaintedNodes) < nodeGroup.Opts.MinNodes {
+	if !locked && len(untaintedNodes) < nodeGroup.Opts.MinNodes {
 		log.WithField("nodegroup", nodegroup).Warn("There are less untainted nodes than the minimum")
 		result, err := c.ScaleUp(scaleOpts{
 			nodes:             allNodes,
@@ -347,7 +350,6 @@ func (c *Controller) scaleNodeGroup(nodegroup string, nodeGroup *NodeGroupState)
 		metrics.NodeGroupsMemPercent.WithLabelValues(nodegroup).Set(memPercent)
 	}
 
-	locked := nodeGroup.scaleUpLock.locked()
 	if locked {
 		// don't do anything else until we're unlocked again
 		log.WithField("nodegroup", nodegroup).Info(nodeGroup.scaleUpLock)
